@@ -138,6 +138,7 @@ def check_units(ctx, cfgmod):
             lines.append(f"c15.qty {fdim} Q{f2h(2.0)}:{hx(bad)}")
             meta.append((bad, "unknown", 1.0, 2.0, fdim))
     out = run_driver(lines)
+    _ROUTED["units"].extend(meta)
     for (name, dim, fac, x, fdim), o in zip(meta, out):
         text = f"{x!r} {name}"
         try:
@@ -223,6 +224,7 @@ def check_band(ctx, cfgmod):
         b = rand_float(rng, 0, 2000) if rng.random() < 0.7 else a
         cases.append((a, b))
     lines = []
+    _ROUTED["bands"].extend(cases)
     for lo, hi in cases:
         tree = {"detector": {"radio": {"low_frequency": lo, "high_frequency": hi}}}
         lines.append("c15.load " + " ".join(enc(tree)))
@@ -282,6 +284,7 @@ def check_months(ctx, cfgmod):
             cands += [nm, nm.lower(), nm.upper(), nm.swapcase(), nm[:-1], nm + "x", " " + nm, nm + " ", nm[:4], nm[:2]]
     cands += ["", "Janu", "sept", "Sept.", "ſeptember", "Auguſt", "januar", "0x3", "3.0", "+3", "١", "１２", "1２", "²", "Mai", "Dez"]
     cands = list(dict.fromkeys(cands))
+    _ROUTED["months"].extend(cands)
     lines = ["c15.month " + ("I%d" % c if isinstance(c, int) else "S" + hx(c)) for c in cands]
     out = run_driver(lines)
     for c, o in zip(cands, out):
@@ -336,6 +339,7 @@ def check_unions(ctx, cfgmod):
         {"unknown_key": 1, "detector": {"unknown": 2}},
     ]
     out = run_driver(["c15.load " + " ".join(enc(t)) for t in trees])
+    _ROUTED["trees"].extend(trees)
     for t, o in zip(trees, out):
         rs, rv = real_load(cfgmod, t)
         ms, mv = model_res(o)
@@ -617,6 +621,223 @@ def check_cli(ctx, cfgmod):
                           {"args": args, "diff": [(".".join(p), a, b) for p, a, b in diff[:3]]})
 
 
+# --------------------------------------------------------------------------- every route by which a configuration arrives
+# Property text: "an incompatible unit or an inverted frequency band is rejected ... numbers outside 1-12 and unparseable names
+# are rejected" and "writing it to TOML and reading it back yields the same configuration" (observe_at: create_toml /
+# config_from_toml, the command line).  The rules are rules of the CONFIGURATION, not of one entry point: every case of the
+# streams above (months, bands, units, union trees; valid and malformed) is therefore sent through every route by which a
+# configuration can arrive -- section objects built by their constructors, NssConfig(**dict), model_validate(dict), a TOML
+# file holding just these keys, a complete file as create_toml writes it with these keys edited, and `nuspacesim run <file>`
+# (the configuration handed to compute) -- and the routes must agree: all reject, or all give the same configuration, which
+# says what the file says (the selected union variant is the one named in the file).
+_ROUTED = {"months": [], "bands": [], "trees": [], "units": []}
+
+
+def _toml_ok(v):
+    if isinstance(v, dict):
+        return all(isinstance(k, str) and _toml_ok(x) for k, x in v.items())
+    return isinstance(v, (str, bool, float)) or (isinstance(v, int) and abs(v) < 2**63)
+
+
+def _section_classes(ann):
+    import typing
+    from pydantic import BaseModel
+    if isinstance(ann, type) and issubclass(ann, BaseModel):
+        return [ann]
+    return [c for a in typing.get_args(ann) for c in _section_classes(a)]
+
+
+def _build(cls, tree):
+    """the Python-API route: every section that can be named is built by its own constructor, innermost first"""
+    kw = {}
+    for k, v in tree.items():
+        cands = _section_classes(cls.model_fields[k].annotation) if k in cls.model_fields else []
+        if isinstance(v, dict) and len(cands) > 1:
+            cands = [c for c in cands if "id" in c.model_fields and v.get("id") == c.model_fields["id"].default]
+        kw[k] = _build(cands[0], v) if isinstance(v, dict) and len(cands) == 1 and all(isinstance(x, str) for x in v) else v
+    return cls(**kw)
+
+
+def _merge_into_full(full, tree):
+    out = dict(full)
+    for k, v in tree.items():
+        if isinstance(v, dict) and isinstance(out.get(k), dict) and "id" not in out[k]:
+            out[k] = _merge_into_full(out[k], v)
+        else:
+            out[k] = v          # leaves, unknown keys and union sections (their keys depend on the variant) replace
+    return out
+
+
+def _ids(tree, path=()):
+    for k, v in tree.items():
+        if isinstance(v, dict):
+            yield from _ids(v, path + (k,))
+        elif k == "id":
+            yield path + (k,), v
+
+
+def routed_cases(ctx):
+    from astropy.units import Quantity
+    rng = ctx.rng
+    cases = []
+    for c in _ROUTED["months"]:
+        if not isinstance(c, bool):
+            cases.append(("month", {"simulation": {"cloud_model": {"id": "pressure_map", "month": c}}}, expected_month(c) is None))
+    def mhz(v):
+        return float(Quantity(v).to("MHz").value) if isinstance(v, str) else float(v)
+    for lo, hi in _ROUTED["bands"]:
+        cases.append(("band", {"detector": {"radio": {"low_frequency": lo, "high_frequency": hi}}}, not mhz(hi) > mhz(lo)))
+    for t in _ROUTED["trees"]:
+        cases.append(("tree", t, None))
+    # units: the cases of check_units (every malformed one; a sample of the rest in the quick tier) on the representative
+    # field of the dimension, and every malformed spelling + one unit of every other dimension on EVERY dimensional field
+    units = _ROUTED["units"]
+    bad = [m for m in units if m[1] != m[4]]
+    good = [m for m in units if m[1] == m[4]]
+    if not ctx.thorough:
+        bad = [m for m in bad if m[1] == "unknown"] + [bad[i] for i in rng.choice(len(bad), size=min(60, len(bad)), replace=False)] if bad else []
+        good = [good[i] for i in rng.choice(len(good), size=min(40, len(good)), replace=False)] if good else []
+    def unit_case(path, canon, text):
+        try:
+            Quantity(text).to(canon)
+            rej = False
+        except Exception:  # noqa
+            rej = True
+        tree = {}
+        d = tree
+        for k in path[:-1]:
+            d = d.setdefault(k, {})
+        d[path[-1]] = text
+        if path[-1] == "low_frequency":
+            d["high_frequency"] = float("inf")
+        if path[-1] == "high_frequency":
+            d["low_frequency"] = float("-inf")
+        return ("unit", tree, rej)
+    for name, dim, fac, x, fdim in bad + good:
+        cases.append(unit_case(FIELD_OF_DIM[fdim], CANON[fdim], f"{x!r} {name}"))
+    one_of = {"length": "3 km", "angle": "3 deg", "area": "3 m2", "freq": "3 MHz", "power": "3 dB"}
+    spell = ["kmm", "MHZ", "mile", "turn", "degrees of arc", "dB(mW)", "km km km/", "abc", "", "3 s", "3 kg"]
+    for path, (dim, canon) in DIMENSIONAL.items():
+        for text in [f"2.0 {b}".strip() if b not in ("abc", "", "3 s", "3 kg") else b for b in spell] + list(one_of.values()):
+            cases.append(unit_case(path, canon, text))
+    return cases
+
+
+def check_routes(ctx, cfgmod):
+    import tomli_w
+    import unittest.mock
+    from click.testing import CliRunner
+    from nuspacesim.apps import run as runmod
+    cases = routed_cases(ctx)
+    for k in _ROUTED:
+        _ROUTED[k].clear()
+    tmp = tempfile.mkdtemp(prefix="c15r-")
+    path = os.path.join(tmp, "c.toml")
+    full = cfgmod.NssConfig().model_dump()
+    seen_cfg = []
+
+    def spy(config, *a, **k):
+        seen_cfg.append(config)
+
+    def attempt(f):
+        try:
+            return "ok", floatify(raw_of(f()))
+        except Exception as e:  # noqa
+            return "err", err_kind(e)
+
+    def from_file(doc):
+        with open(path, "wb") as f:
+            tomli_w.dump(doc, f)
+        return cfgmod.config_from_toml(path)
+
+    def from_run(doc):
+        with open(path, "wb") as f:
+            tomli_w.dump(doc, f)
+        seen_cfg.clear()
+        with unittest.mock.patch.object(runmod, "compute", spy):
+            res = CliRunner().invoke(runmod.run, [path, "--no-result-file"])
+        if res.exit_code != 0 or not seen_cfg:
+            raise res.exception if isinstance(res.exception, Exception) else RuntimeError(f"exit {res.exit_code}")
+        return seen_cfg[0]
+
+    SITE = {"dict": "NssConfig", "model_validate": "NssConfig.model_validate", "toml-keys-only": "config_from_toml",
+            "toml-complete-file": "config_from_toml", "cli-run": "nuspacesim run"}
+    done = set()
+    for kind, tree, must_reject in cases:
+        key = repr(tree)
+        if key in done or not isinstance(tree, dict) or not all(isinstance(k, str) for k in tree):
+            continue
+        done.add(key)
+        routes = {"constructors": attempt(lambda: _build(cfgmod.NssConfig, tree)),
+                  "dict": attempt(lambda: cfgmod.NssConfig(**tree)),
+                  "model_validate": attempt(lambda: cfgmod.NssConfig.model_validate(tree))}
+        if _toml_ok(tree):
+            routes["toml-keys-only"] = attempt(lambda: from_file(tree))
+            if all(k in full for k in tree):
+                routes["toml-complete-file"] = attempt(lambda: from_file(_merge_into_full(full, tree)))
+            if kind != "unit" or must_reject or ctx.thorough:
+                routes["cli-run"] = attempt(lambda: from_run(tree))
+        ref = routes["constructors"]
+        ctx.case(("route", kind, key), {"op": "one input through every route", "tree": tree, "routes": {r: (v[0] if v[0] == "ok" else v[1]) for r, v in routes.items()}}
+                 if key in (repr({"simulation": {"cloud_model": {"id": "pressure_map", "month": 13}}}),) else None)
+        ctx.count(f"routed_{kind}_" + ("rejected" if ref[0] == "err" else "accepted"))
+        ctx.count("routes_tried", len(routes))
+        for r, (st, val) in routes.items():
+            case = {"tree": tree, "given_as": r, "result": st if st == "ok" else val, "by_constructors": ref[0] if ref[0] == "ok" else ref[1]}
+            site = SITE.get(r, "section constructors")
+            if st == "ok" and must_reject:
+                ctx.violation(site, "invalid-accepted", f"a malformed {kind} value is accepted when the configuration is given as {r}", case)
+            elif st == "ok" and ref[0] == "err":
+                ctx.violation(site, "invalid-accepted", f"a value the section constructors reject ({ref[1]}) is accepted when the configuration is given as {r}", case)
+            elif st == "err" and ref[0] == "ok":
+                ctx.violation(site, "valid-rejected", f"a value the section constructors accept is rejected ({val}) when the configuration is given as {r}", case)
+            elif st == "ok":
+                d = tree_diff(ref[1], val, rtol_paths=ANGLE, rtol=ANGLE_TOL)
+                if r == "cli-run":      # `run` converts the event count with int()
+                    d = [x for x in d if x[0] != ("simulation", "thrown_events")]
+                if d:
+                    ctx.violation(site, "route-changes-configuration", f"the same values give a different configuration when given as {r}",
+                                  {**case, "diff": [(".".join(p), a, b) for p, a, b in d[:3]]})
+                for p, ident in _ids(tree):
+                    if get_path(val, p) != ident:
+                        ctx.violation(site, "section-replaced", f"the input names variant {ident!r} at {'.'.join(p[:-1])}, the configuration read ({r}) has {get_path(val, p)!r}",
+                                      {**case, "path": ".".join(p)})
+
+
+def check_cli_months(ctx, cfgmod):
+    """the command-line route for months (`create-config --pressuremapcloud <text>`): whatever text is given, either the
+    command fails or the file it writes reads back as a pressure-map model with the month the text names"""
+    from click.testing import CliRunner
+    from nuspacesim.apps.create_config import create_config
+    tmp = tempfile.mkdtemp(prefix="c15cm-")
+    path = os.path.join(tmp, "m.toml")
+    cands = [str(i) for i in range(-3, 17)] + ["%02d" % i for i in range(0, 15)] + ["100", "003", " 3", "3 ", "", "Janu", "sept", "Sept.", "januar", "0x3", "3.0", "+3", "Mai", "Dez", "Smarch"]
+    for i in range(1, 13):
+        for nm in (calendar.month_name[i], calendar.month_abbr[i]):
+            cands += [nm, nm.lower(), nm.upper(), nm[:-1], nm + "x", nm[:4], nm[:2]]
+    for c in dict.fromkeys(cands):
+        if os.path.exists(path):
+            os.unlink(path)
+        res = CliRunner().invoke(create_config, ["--pressuremapcloud", c, path])
+        exp = expected_month(c)
+        ctx.case(("cli-month", c), None)
+        if res.exit_code != 0 or not os.path.exists(path):
+            ctx.count("cli_month_rejected")
+            if exp is not None:
+                ctx.violation("create-config CLI", "valid-rejected", f"--pressuremapcloud {c!r} fails (exit {res.exit_code}) although it names month {exp}", {"args": ["--pressuremapcloud", c]})
+            continue
+        ctx.count("cli_month_accepted")
+        try:
+            cm = cfgmod.config_from_toml(path).simulation.cloud_model
+            got = (cm.id, getattr(cm, "month", None))
+        except Exception as e:  # noqa
+            got = ("unreadable", err_kind(e))
+        if exp is None or got != ("pressure_map", exp):
+            ctx.violation("create-config CLI", "invalid-accepted" if exp is None else "cli-roundtrip",
+                          f"--pressuremapcloud {c!r} exits 0 and the file it writes reads back as {got}, expected {'a failure' if exp is None else ('pressure_map', exp)}",
+                          {"args": ["--pressuremapcloud", c], "read_back": got, "expected_month": exp})
+
+
 def warm_process(ctx, nss):
     """The configuration rules hold in a process that has already run a simulation (a notebook or scan session runs, then
     builds the next configuration): run one small simulation with both channels first, so that anything the stages leave
@@ -647,6 +868,8 @@ def run(ctx: Ctx):
     check_locale_independence(ctx, cfgmod)
     check_months(ctx, cfgmod)
     check_unions(ctx, cfgmod)
+    check_routes(ctx, cfgmod)
+    check_cli_months(ctx, cfgmod)
     check_roundtrip(ctx, nss, cfgmod, 12000 if ctx.thorough else 250)
     check_none_sections(ctx, nss, cfgmod, 400 if ctx.thorough else 20)
     check_cli(ctx, cfgmod)
